@@ -123,6 +123,18 @@ class PipeShape(Shape):
     def cli_agrees(self, summary, cli):
         return summary['kind'] == cli['kind'] and summary['image'] == cli['image']
 
+    def judge_cli(self, summary, cli):
+        """C14 at the level where it is stated - the command line: exit status versus the image file"""
+        if 'C14' not in self.params.get('props', []):
+            return {}
+        binary = self.params.get('binary', True)
+        return {
+            'C14.command_line_does_not_report_success_when_assembly_failed': not (cli['kind'] == 'ok' and summary['kind'] != 'ok'),
+            'C14.image_exists_when_the_command_line_reports_success': not (cli['kind'] == 'ok' and binary and cli['image'] is None
+                                                                             and summary['image'] is not None),
+            'C14.no_image_when_the_command_line_reports_failure': not (cli['kind'] != 'ok' and cli['image'] is not None),
+        }
+
     def write_replay(self, model, dest):
         self.case.write_concrete(model, dest)
 
